@@ -670,6 +670,11 @@ func checkHistory(ctx *pbt.Ctx, c History) error {
 		case "readfrom":
 			enc := ref.Encode(*op.Other, op.Ext)
 			r := bytes.NewReader(append(append([]byte{}, enc...), op.Trail...))
+			// the element objects the receiver holds now (built by the caller or produced by an
+			// earlier decode) are not the decoder's to reuse: they must keep their content
+			shadows = append(shadows, shadow{fmt.Sprintf("the inputs and outputs the object held before the ReadFrom of step %d", step),
+				&bt.Tx{Version: cur.Version, LockTime: cur.LockTime, Inputs: append([]*bt.Input{}, cur.Inputs...), Outputs: append([]*bt.Output{}, cur.Outputs...)},
+				ref.Encode(m, false), ref.Encode(m, true)})
 			n, err := cur.ReadFrom(r)
 			if err != nil {
 				return fmt.Errorf("step %d: ReadFrom into the populated object rejected a reference encoding: %v", step, err)
